@@ -10,6 +10,7 @@ invalid-destination halt of `jumpi` — known finding —, an OutOfGas raised by
 model's stack-limit stop) — or a flag is raised: bounded loop, `--depth` cut, or the model's fuel.
 
 `complete_calls`: the same for the frame-stack machine with message calls (`runC`, see `C01.sound_calls`);
+`complete_calls_from` from any related first state (see `C01.sound_calls_from`),
 `complete_calls_create` with CREATE, `complete_calls_hsto` with storage cells at mapping / dynamic-array locations
 followed (the covering end then also describes the hashed cells of the final world).
 
